@@ -9,6 +9,9 @@ CLAIMED = {
  "C27": ("§2 C27", "SSA provenance (ownership) analysis: backward origin walk through phi/slice/append/field/extract with reaching stores for local structs, captured-variable cells, return summaries and writes-through summaries to a fixpoint; AST checks of the overlay direction",
   "Decides that no code path of interp/expand/internal writes through variable storage it shares with another shell: every element store, map update, delete, clear, copy, in-place slices/sort call and append on a variable's list, indexes or map, or on the positional parameters, must act on storage created in the same activation; handing such storage to a callee that stores through its parameter is judged at the call site. Also that subshell() gives the copy fresh maps/slices/environment except a named table of fields shared by design, that background copies copy every variable, and that overlays write to their parent only in function scope. The analysis found the in-place array append on the pinned tree (repaired by a fix: commit). Runs on six build configurations in the thorough tier.",
   "Sound relative to: no reflection/unsafe in these packages (checked); storage returned by Environ.Get/lookupVar/Resolve or received as a parameter is treated as shared, clones/makes/literals as owned; stdlib aliasing and mutating helpers come from an explicit table. Does not decide isolation of cd/options/traps beyond by-value copies."),
+ "C06": ("§2 C06", "case-set inclusion between guards/predicates and token-function switches; exhaustiveness of panicking type-switch defaults with who-may-construct; field-invariant and reflect-marker idioms for unchecked assertions; panic inventory with an explicit precondition table; CFG edge-cut domination of fill() calls by constant-bounded guards and of backward buffer offsets by their underflow test; natural-loop cycle search with computed always-consuming functions and end-of-input exits; reset-field classification shared with C08",
+  "Decides structural crash- and hang-freedom clauses for package syntax and typedjson: token functions ending in panic(\"unreachable\") are only called with runes they handle; every type switch whose default panics covers all parser-constructible node types and the JSON encoder handles every reachable field kind; both unchecked type assertions are dominated by the invariant that makes them safe; every remaining panic is an enumerated option/tree-shape precondition (a new panic call is undecided, hence fails); fill() is only called with a constant-bounded number of unread bytes (a lookahead that can fill the whole buffer makes Read return (0, nil) forever); backward offsets into the read buffer are guarded against unsigned underflow; every rune-level loop of the lexer and parser consumes input or reports an error on each cycle and leaves at the end-of-input sentinel; Parser/Printer reuse starts from reset state.",
+  "Not decided: general index/nil/slice safety, running time beyond per-cycle progress, the 19 token-level parser loops (termination rests on _EOF being absorbing), trees not built by the parser. Four panic sites are table exceptions with reasons (Variant, StopAt, two typedjson tree-shape preconditions)."),
  "C30": ("§2 C30", "field-write classification of interp.Runner over the type-checked AST (configuration / first-reset block / Reset / runtime), key-by-key analysis of Reset's Runner literal against that classification, must-pass-through for the emptied-after idiom and for didReset, dominance of the !didReset guard and of fillExpandConfig in Run, must-pass-through of updateExpandOpts after every runtime option-table write",
   "Decides the Reset half structurally and one clause of the incremental half. Reset: every field stored by an option closure or by New is carried over by Reset's literal — from itself when only configuration code writes it, from its first-reset snapshot when builtins can overwrite it — or is consumed in the first-reset block; no literal key carries a field the running program can write unless it is emptied on every path afterwards; snapshots are taken only in the first-reset block and carried unchanged; didReset is set on every path. Incremental: Run resets only a never-reset Runner and refreshes the expansion options first, and every runtime write to the option table reaches updateExpandOpts on every path to the function exit (this rule found `shopt -s nullglob bogus` / `set -f -Z` leaving the rest of the Run on stale options: repaired by a fix: commit). A dropped handler, a leaked Funcs/alias/trap field or a missed refresh is one failing obligation whatever the history.",
   "Does not decide value-level equality of a reset Runner with a new one, nor the incremental clause beyond option refresh (EXIT trap, exit inside functions). Two reasoned exceptions (sourceSetParams, dirStack), one line each."),
